@@ -407,7 +407,7 @@ def run_shard(ctx: Ctx, rec: Recorder) -> None:
                     for retries in (False, 2):
                         for maxsize in (1, 2):
                             idx += 1
-                            if not ctx.mine(idx) or (idx // ctx.nshards) % stride:
+                            if not ctx.mine(idx) or ctx.skip(idx, stride):
                                 continue
                             case = {"maxsize": maxsize, "retries": retries, "methods": [m1, m2], "caller": [cb, "read"], "server": [dict(sb), {"framing": "cl"}, {"framing": "cl"}, {"framing": "cl"}]}
                             rec.case(["len2", sb, cb, m1, m2, retries, maxsize])
